@@ -863,7 +863,8 @@ fn gen_c03(rng: &mut Rng, tier: Tier, miri: bool, fixed: Option<(ElemKind, Vec<S
             96
         }
     } else if tier.thorough && rng.chance(0.2) {
-        1 << 18
+        // (2^18 made single sanitizer-flavour runs with full shape grids take minutes on a busy machine)
+        1 << 16
     } else if rng.chance(0.3) {
         1 << 14
     } else {
